@@ -129,7 +129,8 @@ PROPS = {
                    "bound (64*2^-53*max(1,z^2)) is applied to IEEE doubles, whose overflow/underflow behaviour the standard model omits.",
         rule="exhaustive over (n,k), 0<=k<=n+1, n<=90 (quick) / 400 (thorough) x 4-14 confidences, plus sampled n up to 2^30, front-end data sets, "
              "ratio form for every k/n; distinct by sha1 of the input; non-trivial = all (rejections are part of the documented domain)"
-             "; also: Random histories of new/extend/extend_if/add_success/add_failure/+=/+/from_iter on one Stats (pseq); levels within an ulp of 1 and of 0 (infinite critical value -> [0,1]).",
+             "; also: Random histories of new/extend/extend_if/add_success/add_failure/+=/+/from_iter on one Stats (pseq); levels within an ulp of 1 and of 0 (infinite critical value -> [0,1])."
+             "; round 4: the proportion front-ends fed by containers / iterators with an inexact size hint; the ratio form at products beyond 2^52 and just below 1/2 with the implied counts",
         assumptions=["statrs Normal::inverse_cdf is the standard-normal quantile (validated under C06)"],
     ),
     "C03": dict(
@@ -147,7 +148,8 @@ PROPS = {
                    "the real-number rank theorems transfer to floats only up to 'one position' (checked by the oracle on every case).",
         rule="all n in 0..160 (quick) / 0..2000 (thorough) x q grid (every integer and half-integer q*n and both float neighbours) x 6 confidences; "
              "random n to 2e6; data-level cases for 4 element types; distinct by sha1 of the input"
-             "; also: NaN at every position of otherwise ascending data (documented panic).",
+             "; also: NaN at every position of otherwise ascending data (documented panic)."
+             "; round 4: the pre-sorted entry point on the data as given (never Ok with inverted bounds); a container with gaps",
         assumptions=["elements are mutually comparable (NaN data is the documented panic, checked as such)"],
     ),
     "C17": dict(
@@ -163,7 +165,8 @@ PROPS = {
                    "levels below 1/2 (negative z) a larger population does not narrow the interval (the theorem needs z>0).",
         rule="all (n,k) with 2<=k<=n-2, n<=70 (quick) / 400 (thorough): mono (k,k+1), mirror, shrink (random m in 2..50), wider (random level pair); "
              "random n to 1e6; distinct by sha1 of the input"
-             "; also: Level pairs below 1/2; level scans on a grid that is fine near 0 and near 1.",
+             "; also: Level pairs below 1/2; level scans on a grid that is fine near 0 and near 1."
+             "; round 4: the usual levels against neighbours at 1e-9 .. 3e-5; the largest level below 1",
         assumptions=["statrs Normal::inverse_cdf is increasing in p (validated numerically by the 'wider' relation itself)"],
     ),
     "C13": dict(
@@ -196,7 +199,8 @@ PROPS = {
         level_note="Trusted: Lean kernel + 3 standard axioms; NaN bounds are outside the property's quantifier; width overflow of machine integers is outside the model.",
         rule="exhaustive over all ordered pairs of a 6-9 element chain per element type: new, try_from((T,T)), try_from((Option,Option)), try_from(a..=b), from(a..), "
              "from(..=a), accessor table, option-pair round trip, clone, ==, tuple/extreme projections, width, recorded hash input; distinct by sha1 of the input"
-             "; also: Pair conversion of all 12 integer instantiations; every interval against its copy under ==, partial_cmp, <=, >=, <, >.",
+             "; also: Pair conversion of all 12 integer instantiations; every interval against its copy under ==, partial_cmp, <=, >=, <, >."
+             "; round 4: clone_from into destinations of every kind, directly and through Vec::clone_from",
         trusted_base=INTERVAL_TB,
     ),
     "C15": dict(
@@ -224,7 +228,8 @@ PROPS = {
                    "compared bit-for-bit through the interval-level results.",
         rule="all ordered pairs of float intervals over an 8-element chain x 3 (quick) / 12 (thorough) tolerance triples drawn from the actual differences; "
              "display of every interval over three element types; distinct by sha1 of the input"
-             "; also: Display of huge / tiny / 17-digit floats and of long strings (renderings far beyond 64 bytes).",
+             "; also: Display of huge / tiny / 17-digit floats and of long strings (renderings far beyond 64 bytes)."
+             "; round 4: abs_diff_ne / relative_ne / ulps_ne next to every *_eq; width / precision / sign flags on Display",
     ),
     "C08": dict(
         modules=["StatsCI.Properties.C08"],
@@ -243,7 +248,8 @@ PROPS = {
         rule="random stack programs over 1-8 chunks (append / extend / += / + / clone / interleaved queries), every merge-tree shape over 2-5 (quick) / 6 chunks, "
              "five generators (constant, same-sign, mixed magnitudes, cancelling, head+increments) for f32 and f64, streams of 5e4 and 1e6 (1e7 thorough) elements; "
              "distinct by sha1 of the program"
-             "; also: One register fed alternately by value and by one-element register (up to 10^6 steps); one-sign streams, negative and positive; == of registers and From<T>.",
+             "; also: One register fed alternately by value and by one-element register (up to 10^6 steps); one-sign streams, negative and positive; == of registers and From<T>."
+             "; round 4: left folds of 20 000-100 000 small registers merged by value and in place",
         assumptions=["no overflow/underflow in the generated streams"],
     ),
     "C01": dict(
@@ -263,7 +269,8 @@ PROPS = {
         rule="random samples: all n in 2..9, 60 (quick) / 400 (thorough) sizes in 10..300, sizes to 5000, both sides of the t->z switch (99 999..100 003), "
              "long samples (150 000 quick; 10^6 thorough); 7 generator styles; f32 and f64; random and grid levels in [0.001, 0.9999]; three kinds; "
              "distinct by sha1 of the input; all non-trivial (n >= 2, non-constant)"
-             "; also: 7 call styles (incl. chunked from_iter+extend and two partial states merged with +); zero-sum and zero-containing samples; magnitudes where (sum x)^2 overflows but sum x^2 does not.",
+             "; also: 7 call styles (incl. chunked from_iter+extend and two partial states merged with +); zero-sum and zero-containing samples; magnitudes where (sum x)^2 overflows but sum x^2 does not."
+             "; round 4: two partial states merged with += ; a container with gaps (inexact size hint) through ci / from_iter / extend",
         trusted_base=["rounding: IEEE arithmetic is interpreted as reals with an abstract rounding function; overflow/underflow/NaN propagation are outside these theorems (covered by execution and by C11)"],
         assumptions=["statrs StudentsT/Normal inverse_cdf are the true quantiles (validated under C06)"],
     ),
@@ -281,7 +288,8 @@ PROPS = {
                    "dof -2 (panic); IEEE gives NaN dof and the z branch - this difference between the RR interpretation and IEEE is stated as a theorem and "
                    "covered by execution.",
         rule="100 (quick) / 600 (thorough) random paired cases (every 5th with unequal lengths) and as many unpaired cases; f32 and f64; distinct by sha1 of the input"
-             "; also: Samples with more than 100 000 observations in total and a tiny effective dof; mismatched extend on a populated Paired (3 ways of populating it); balanced samples (maximal effective dof).",
+             "; also: Samples with more than 100 000 observations in total and a tiny effective dof; mismatched extend on a populated Paired (3 ways of populating it); balanced samples (maximal effective dof)."
+             "; round 4: containers with gaps (different paddings on the two sides); f32 / f64 data whose fourth powers leave the range of the type; exactly equal sample means",
         trusted_base=["rounding: IEEE arithmetic is interpreted as reals with an abstract rounding function; overflow/underflow/NaN propagation are outside these theorems (covered by execution and by C11)"],
     ),
     "C05": dict(
@@ -316,7 +324,8 @@ PROPS = {
                    "register is right-neutral only up to 2|c| + O(u)|s| when the compensation is non-zero (theorem neutral_rounded).",
         rule="80 (quick) / 600 (thorough) random programs of up to 40-200 operations for each of 7 state types, f32 and f64, queries interleaved and repeated; "
              "12/60 parallel reductions; distinct by sha1 of the program"
-             "; also: Chunks of 1024..5000 observations through extend/from_iter; Unpaired fed through stats_a_mut/stats_b_mut as well as append_a/append_b.",
+             "; also: Chunks of 1024..5000 observations through extend/from_iter; Unpaired fed through stats_a_mut/stats_b_mut as well as append_a/append_b."
+             "; round 4: proportion Stats fed through lazily thinned iterators and containers with gaps",
         trusted_base=["rounding: IEEE arithmetic is interpreted as reals with an abstract rounding function; overflow/underflow/NaN propagation are outside these theorems (covered by execution and by C11)"],
     ),
     "C18": dict(
@@ -348,7 +357,8 @@ PROPS = {
                    "continuous population is textbook probability, not in Mathlib. Binomial weights in f64 by a log-space recurrence (relative error ~ n 2^-52).",
         rule="n in {20,37,60,100,250,600} (quick) / 21 values to 3000 (thorough) x levels {0.8,0.9,0.95,0.99} x three kinds: all k in 0..n per line, p on a "
              "400-2000 point grid; quantile ranks for n in {20,50,100,400} (quick) / 8 values to 3000, q on a 100/400-point grid; one line = one (n, confidence), "
-             "exhaustive in k; distinct by sha1 of the input",
+             "exhaustive in k; distinct by sha1 of the input"
+             "; round 4: the coverage ranks also through quantile::ci on shuffled data, the proportion coverage also through the ratio front-end",
         assumptions=["B ~ Bin(n, q) for a continuous population (literature)", "documented slacks in spec/slack.json were calibrated on the verified model"],
     ),
     "C11": dict(
@@ -369,7 +379,8 @@ PROPS = {
         rule="12 confidences x {n in 0..1} x 8 entry points, constant data (5 values x 4 sizes), NaN/+inf/-inf at each of 6 positions x 7 entry points, "
              "huge/tiny magnitudes, non-positive data, 5 length mismatches, 11 (n,k) edge pairs, 6 invalid quantiles x 5 entry points, n in 0..3 for quantiles, "
              "plus random extreme-range valid inputs; non-trivial = all (each line is an invalid or degenerate input class); distinct by sha1 of the input"
-             "; also: NaN inside ascending data for the quantile entry points.",
+             "; also: NaN inside ascending data for the quantile entry points."
+             "; round 4: unsorted finite data and +-inf through every quantile entry point; the success-ratio form with rates above 1",
     ),
     "C16": dict(
         modules=["StatsCI.Properties.C16"],
@@ -387,7 +398,8 @@ PROPS = {
                    "|c1-c2|/|c| of the half-width).",
         rule="60 (quick) / 400 (thorough) data sets per producer {arith, paired, unpaired, geo, harm} x {f32, f64} x {scale 2^e, negate, shift, reorder} + all 120 "
              "permutations of a 5-element sample every 20th round; distinct by sha1 of the input"
-             "; also: Shifts that make the sum exactly zero, exactly cancelling paired differences, geometric data balanced around 1; scaling into the window where only the squares still fit.",
+             "; also: Shifts that make the sum exactly zero, exactly cancelling paired differences, geometric data balanced around 1; scaling into the window where only the squares still fit."
+             "; round 4: unpaired samples whose exact effective dof is a whole number, shifted and reordered",
     ),
     "C06": dict(
         modules=["StatsCI.Properties.C06"],
@@ -428,7 +440,8 @@ PROPS = {
                    "and checked only through the trees serde_json produces. Trusted: Lean kernel + 3 standard axioms; serde / serde_json / toml.",
         rule="5 feature-set builds; 40 (quick) / 300 (thorough) rounds x 9 state types (f32/f64) reached by random programs of up to 30-150 operations + a "
              "Confidence and an Interval per round; distinct by sha1 of the program"
-             "; also: Constant samples of non-dyadic values (n in 1..11); states standing for 2^31..2^33 observations reached by doubling.",
+             "; also: Constant samples of non-dyadic values (n in 1..11); states standing for 2^31..2^33 observations reached by doubling."
+             "; round 4: short ascending samples spanning decades followed by further accumulation after the round trip",
     ),
     "C10": dict(
         modules=["StatsCI.Properties.C10"],
@@ -447,6 +460,7 @@ PROPS = {
                    "1-(1-(2L-1))/2 (tolerance scaled with the conditioning of the inverse CDF; rank bounds may differ by one position).",
         rule="25 (quick) / 120 (thorough) data sets per producer x 4 / 12 level pairs of each of two shapes (one-sided L vs two-sided 2L-1; same kind L1 < L2 in "
              "[0.001, 0.9999]) x f64 (all producers) and f32 (mean-type producers); distinct by sha1 of the input"
-             "; also: Proportion producers with 10..14 successes/failures at levels 0.99..0.99995; the five mean producers with 100 003 observations.",
+             "; also: Proportion producers with 10..14 successes/failures at levels 0.99..0.99995; the five mean producers with 100 003 observations."
+             "; round 4: a quantile-interval producer on unsorted samples (values = ranks, n to 2500); the largest level below 1 for the Wilson-based producers",
     ),
 }
